@@ -13,6 +13,7 @@ Oracle     : an independent reader of the three formats (tools/props/nfile.py) r
              the precision requested (bit-exact at maximum precision in rectangular form where stored directly);
              cksave <=> fsave <=> save.
 """
+import re
 import math, os, random, shutil, tempfile
 import numpy as np
 import vlib
@@ -62,10 +63,15 @@ def gen_object(rng, exact=False):
         freqs = [float('%.3g' % f) for f in freqs]
     lines.append('vd 0 set_frequency_vector ' + ' '.join(vlib.d2h(f) for f in freqs))
     scale = {'z': 50.0, 'y': 0.02, 'zin': 50.0}.get(t, 1.0)
+    if rng.random() < 0.25:
+        # value magnitudes over the whole range 1e-12 .. 1e12
+        scale *= 10.0 ** rng.randint(-12, 12)
     for f in range(nf):
         M = [complex(rng.gauss(0, 1), rng.gauss(0, 1)) * scale for _ in range(rows * ports)]
         if t == 'zin':
-            M = [complex(abs(z.real) + 1, z.imag) for z in M]
+            M = [complex(abs(z.real) + (1 if abs(scale) == 50.0 else 0), z.imag) for z in M]
+            if rng.random() < 0.1:
+                M = [complex(0.0, z.imag) for z in M]          # purely reactive
         if rng.random() < 0.15:
             M = [complex(float('%.3g' % z.real), float('%.3g' % z.imag)) for z in M]
         lines.append('vd 0 set_matrix %d %s' % (f, ' '.join(vlib.c2h(z) for z in M)))
@@ -161,13 +167,22 @@ def run(chk):
     try:
         cases = []
         lines = []
+        # fixed cases first: purely reactive / purely resistive input impedances in the R-L / R-C element forms (R or the element is infinite)
+        forced = []
+        for fmt_, zs_ in (('prl', [0 + 10j, 20 + 10j]), ('prc', [0 - 10j, 5 - 1j]), ('srl', [0 + 10j, 7 + 0j]), ('src', [0 - 10j, 3 - 2j]), ('prl,zinri', [0 + 3j, 1e-3 + 5j])):
+            ol_ = ['vd 0 alloc', 'vd 0 init %d 1 2 1' % TYPE['zin'], 'vd 0 set_frequency_vector ' + vlib.d2h(1e6), 'vd 0 set_matrix 0 ' + ' '.join(vlib.c2h(z_) for z_ in zs_)]
+            forced.append((ol_, dict(type='zin', ports=2, rows=1, nf=1, z0kind='default'), fmt_))
         for k in range(N):
-            ol, obj = gen_object(rng)
-            ext = rng.choice(['.npd', '.npd', '.ts', '.ts', '.s%dp' % obj['ports'], '.s%dp' % rng.randint(1, 4), '.dat', ''])
-            ft = rng.choice([0, 0, 0, 1, 2, 3])
-            fmt = gen_format(rng, obj, touchstone=ext in ('.ts',) or ext.startswith('.s') or (ext in ('.dat', '') and ft in (1, 2)))
-            fp = rng.choice([7, 7, 1, 2, 3, 5, 9, 12, 15, MAXP])
-            dp = rng.choice([6, 6, 1, 2, 3, 4, 9, 12, 15, MAXP, MAXP])
+            if k < len(forced):
+                ol, obj, fmt = forced[k]
+                ext, ft, fp, dp = '.npd', 0, 9, 9
+            else:
+                ol, obj = gen_object(rng)
+                ext = rng.choice(['.npd', '.npd', '.ts', '.ts', '.s%dp' % obj['ports'], '.s%dp' % rng.randint(1, 4), '.dat', '', '.NPD', '.TS', '.S%dP' % obj['ports']])
+                ft = rng.choice([0, 0, 0, 1, 2, 3])
+                fmt = gen_format(rng, obj, touchstone=ext.lower() in ('.ts',) or ext.lower().startswith('.s') or (ext in ('.dat', '') and ft in (1, 2)))
+                fp = rng.choice([7, 7, 1, 2, 3, 5, 9, 12, 15, MAXP])
+                dp = rng.choice([6, 6, 1, 2, 3, 4, 9, 12, 15, MAXP, MAXP])
             name = 'case%d%s' % (k, ext)
             L = list(ol)
             if ft:
@@ -293,8 +308,74 @@ def run(chk):
                 'specifier grammar x file names (.npd .ts .sNp, other) x filetype settings x precisions 1..15 and maximum; distinct = (file kind, type, ports, format, '
                 'dprecision, z0 kind) saved, read independently, loaded and compared')
     chk.samples = [lines[cases[0]['start']:cases[0]['i_save'] + 1]]
+    if not chk.violations:
+        format_lifetime(chk, exe, rng)
     if broken and not chk.violations:
         chk.violation('obligation', 'proof/correspondence obligations that no longer check:\n' + '\n'.join(broken[:30]), nofail=True)
+
+
+def format_lifetime(chk, exe, rng):
+    """a save resolves the default format and type-less specifiers for that call only: the format setting of the object is what the
+    caller set (nothing, or e.g. `ma`), before and after accepted and refused saves, so that a later save of the converted object denotes
+    the object's type; and frequency vectors no Touchstone file can hold are refused by cksave and save alike (NPD takes them)"""
+    z = vlib.c2h
+    M = ' '.join(z(complex(0.1 * k, -0.05 * k)) for k in range(1, 5))
+    for t0, t1 in ((1, 4), (4, 5), (1, 2), (5, 1)):
+        for fmt in (None, 'ma', 'ri', 'db' if t1 in (1, 2, 3) and t0 in (1, 2, 3) else 'ri'):
+            want = '-' if fmt is None else 'x' + fmt.encode().hex()
+            L = ['vd 0 alloc', 'vd 0 init %d 2 2 1' % t0, 'vd 0 set_frequency_vector ' + vlib.d2h(1e9), 'vd 0 set_matrix 0 ' + M]
+            if fmt:
+                L.append('vd 0 set_format ' + h(fmt))
+            L += ['vd 0 get_format', 'vd 0 cksave ' + h('a.npd'), 'vd 0 get_format', 'vd 0 savestr ' + h('a.npd'), 'vd 0 get_format',
+                  'vd 0 set_fz0 0 0 %s' % z(60.0), 'vd 0 savestr ' + h('r.s2p'), 'vd 0 get_format', 'vd 0 set_all_z0 %s' % z(50.0),
+                  'vd 0 convert 0 %d' % t1, 'vd 0 savestr ' + h('b.npd'), 'vd 0 get_format', 'vd 0 free', 'cal live']
+            out, rc, err = vlib.run_lines(exe, L, timeout=120)
+            chk.evaluations += 1
+            tag = 'type %d saved, converted to %d, saved again, format %r' % (t0, t1, fmt)
+            if rc != 0 or len(out) != len(L):
+                chk.violation('lifetime-crash', '%s: crashed / sanitizer report: %s' % (tag, err[-800:]), L)
+                return
+            gf = [o.split()[-1] if o.startswith('ok') else '-' for l, o in zip(L, out) if l == 'vd 0 get_format']
+            canon = lambda g: g if g == '-' else bytes.fromhex(g[1:]).decode().lower()      # the setting is echoed in canonical letter case
+            if any(canon(g) != canon(want) for g in gf):
+                chk.violation('format-pinned', '%s: vnadata_get_format answers %s across cksave / save / a refused save / convert / save; the caller set %s' % (tag, gf, want), L)
+                return
+            i2 = L.index('vd 0 savestr ' + h('b.npd'))
+            if not out[i2].startswith('ok'):
+                chk.violation('second-save', '%s: the second save fails: %s' % (tag, out[i2][:80]), L[:i2 + 1])
+                return
+            txt = bytes.fromhex(out[i2].split()[-1][1:]).decode('utf-8', 'replace')
+            m = re.search(r'(?m)^#:parameters\s+(\S+)', txt)
+            letter = {1: 's', 2: 't', 3: 'u', 4: 'z', 5: 'y'}[t1]
+            if not m or not m.group(1).lower().startswith(letter):
+                chk.violation('stale-type', '%s: the second file holds %r, the object is of type %s' % (tag, m.group(1) if m else None, letter.upper()), L[:i2 + 1])
+                return
+            chk.count('format_lifetime_ok')
+    # frequency vectors a Touchstone file cannot hold
+    for fv, what in (([2e9, 1e9], 'descending'), ([1e9, 1e9], 'repeated'), ([-1e9, 1e9], 'negative')):
+        L = ['vd 0 alloc', 'vd 0 init 1 2 2 2', 'vd 0 set_frequency_vector ' + ' '.join(vlib.d2h(f) for f in fv), 'vd 0 set_matrix 0 ' + M, 'vd 0 set_matrix 1 ' + M]
+        probes = []
+        for name in ('x.ts', 'x.s2p', 'x.npd'):
+            L += ['vd 0 cksave ' + h(name), 'vd 0 savestr ' + h(name)]
+            probes.append((name, len(L) - 2, len(L) - 1))
+        L += ['vd 0 free', 'cal live']
+        out, rc, err = vlib.run_lines(exe, L, timeout=120)
+        chk.evaluations += 1
+        if rc != 0 or len(out) != len(L):
+            chk.violation('freqvec-crash', '%s frequencies: crashed / sanitizer report: %s' % (what, err[-800:]), L)
+            return
+        for name, ick, isv in probes:
+            ck, sv = out[ick].startswith('ok'), out[isv].startswith('ok')
+            if ck != sv:
+                chk.violation('cksave-vs-save', '%s frequencies, %s: vnadata_cksave says %s, vnadata_fsave says %s' % (what, name, out[ick][:30], out[isv][:30]), L[:isv + 1])
+                return
+            if sv and name != 'x.npd':
+                # the loader must take what the saver wrote
+                o2, rc2, e2 = vlib.run_lines(exe, ['vd 1 alloc', 'vd 1 loadstr %s %s' % (h(name), out[isv].split()[-1]), 'vd 1 free'], timeout=60)
+                if rc2 != 0 or len(o2) != 3 or not o2[1].startswith('ok'):
+                    chk.violation('freqvec-unloadable', '%s frequencies: %s is written but vnadata_load refuses it: %s' % (what, name, (o2[1] if len(o2) > 1 else e2)[:80]), L[:isv + 1])
+                    return
+        chk.count('freqvec_ok')
 
 
 def correspondence(chk, exe, broken, numbers):
@@ -548,7 +629,7 @@ def verify_load(chk, c, dline, fline):
                     if exact:
                         if got != e:
                             return 'exact', 'maximum precision, rectangular: cell (%d,%d) frequency %d loaded as %r, saved %r' % (a, b, k, got, e)
-                    elif abs(got - e) > (3 * tol_rel(min(p, 15)) + 1e-12 + (2 * tol_rel(min(c['fp'], 15)) if lc else 0)) * max(abs(e), 1e-3 * sc) + 1e-12 * sc:
+                    elif (got != got and e == e) or abs(got - e) > (3 * tol_rel(min(p, 15)) + 1e-12 + (2 * tol_rel(min(c['fp'], 15)) if lc else 0)) * max(abs(e), 1e-3 * sc) + 1e-12 * sc:
                         if p <= 2:
                             chk.count('low_precision_loose')
                             continue
@@ -582,7 +663,7 @@ def verify_load(chk, c, dline, fline):
                 if exact:
                     if got != c['orig']['data'][k][a][b]:
                         return 'exact', 'maximum precision, rectangular: %s%d%d frequency %d loaded as %r, saved %r' % (tname.upper(), a + 1, b + 1, k, got, c['orig']['data'][k][a][b])
-                elif abs(got - e) > 1e-10 * sc:
+                elif (got != got and e == e) or abs(got - e) > 1e-10 * sc:
                     return 'value', '%s%d%d at frequency %d loaded as %r, an independent reading of the file gives %r' % (tname.upper(), a + 1, b + 1, k, got, e)
     chk.count('%s_load_ok' % c['kind'])
     return None
